@@ -12,7 +12,10 @@ Vocabulary (`Lemmas/Async.lean`): `Reach`, `run`, `unfinishedAt`, `unfin b tk` (
 registered at `b`), `Anc m s i` (`s` is `i` or an ancestor of `i`), `Encloses`,
 `dying m s i = inSubtree m s m.scopes.length i` (the scopes killed by `dispose m s`), `pollOf m t`
 (the poll recorded by `complete m t`: `[(t, awaits - 1)]` if `t` is pending with an await point left,
-else `[]`). `polls` is the log of task-body resumptions.
+else `[]`). `polls` is the log of task-body resumptions. `M.ownerOf n` (model): the scope recorded as the
+owner of resource `n` by `Item.resource n`, the root scope 0 if there is none. All statements quantify over
+every build description, so they cover the fetch task of a resource and the guard of a read (`Item.use`),
+which is a task of the OWNER's scope: see the section "resources and reads".
 -/
 import SycVerif.Lemmas.Async
 namespace SycVerif.Async
@@ -188,6 +191,73 @@ theorem C14_dispose_twice {m : M} (hr : Reach m) (s : Nat) :
     step (step m (.dispose s)) (.dispose s) = step m (.dispose s) :=
   C14_dispose_idempotent (hr.step _) (C14_disposed_dead m s)
 
+/-! ### resources and reads
+
+`Item.resource n` spawns the fetch as a task of the current scope and records that scope as the owner of
+resource `n`. `Item.use n` (resource `n` is read while it is loading) registers a guard at the boundary in
+scope; the guard is held by the RESOURCE: it is a task of the scope that owns the resource
+(`M.ownerOf n`; the root scope 0 when no item created resource `n`), not of the scope of the reader. -/
+
+/-- the task created by `Item.resource n` and the owner it records -/
+theorem C14_resource_task (m : M) (cur : Nat) (ctx : Option Nat) (n : Nat) :
+    (buildItem m cur ctx (.resource n)).tasks = m.tasks ++ [⟨cur, ctx, 1, .pending⟩] ∧
+    (buildItem m cur ctx (.resource n)).resOwner = m.resOwner ++ [(n, cur)] := by
+  rw [buildItem_resource]; exact ⟨addTask_tasks m cur ctx 1, rfl⟩
+
+/-- the task created by `Item.use n`: its scope is the owner of the resource, not `cur` -/
+theorem C14_use_task (m : M) (cur : Nat) (ctx : Option Nat) (n : Nat) :
+    (buildItem m cur ctx (.use n)).tasks = m.tasks ++ [⟨m.ownerOf n, ctx, 1, .pending⟩] ∧
+    (buildItem m cur ctx (.use n)).resOwner = m.resOwner := by
+  rw [buildItem_use]; exact ⟨addTask_tasks _ _ _ _, addTask_resOwner _ _ _ _⟩
+
+/-- events never change the recorded owners; the owner of a resource is a scope that exists -/
+theorem C14_owner {m : M} (hr : Reach m) (e : Ev) (n : Nat) :
+    (step m e).ownerOf n = m.ownerOf n ∧ m.ownerOf n < m.scopes.length := by
+  refine ⟨?_, hr.good.struct.ownerOf_lt n⟩
+  unfold M.ownerOf; rw [(sameSkel_step m e).res]
+
+/-- The guard of a read is released with the OWNER of the resource. `tk` is a pending task of the scope
+that owns resource `n`, registered at boundary `b` (the task of an `Item.use n`, see `C14_use_task`), and
+the owner is `s` or a descendant of `s`. Then `dispose s` cancels the task (aborted, then dropped by the
+executor turn), and the counter of `b`, if it survives, goes down by the number of cancelled tasks that
+held it — this task among them, so it goes down. -/
+theorem C14_use_released_with_owner {m : M} (hr : Reach m) {s t n b : Nat} {tk : Task} {bd bd' : Boundary}
+    (ht : m.tasks[t]? = some tk) (hsc : tk.scope = m.ownerOf n) (hbt : tk.boundary = some b)
+    (hp : tk.status = .pending) (hs : Anc m s (m.ownerOf n))
+    (hb0 : m.boundaries[b]? = some bd) (hb : (step m (.dispose s)).boundaries[b]? = some bd')
+    (hal : scopeAlive (step m (.dispose s)) bd'.counterScope = true) :
+    (step m (.dispose s)).tasks[t]? = some { tk with status := .dropped } ∧
+    bd.remaining = bd'.remaining +
+      (m.tasks.countP fun tk => unfin b tk && inSubtree m s m.scopes.length tk.scope) ∧
+    bd'.remaining < bd.remaining := by
+  have hin : inSubtree m s m.scopes.length tk.scope = true := by
+    rw [hsc]; exact (C14_subtree_iff hr s _ (hr.good.struct.ownerOf_lt n)).2 hs
+  have hdelta := C14_survivor_released_delta hr s hb0 hb hal
+  refine ⟨C14_dispose_cancels ht hin hp, hdelta, ?_⟩
+  have : 0 < m.tasks.countP fun tk => unfin b tk && inSubtree m s m.scopes.length tk.scope :=
+    List.countP_pos_iff.2 ⟨tk, List.mem_iff_getElem?.2 ⟨t, ht⟩, by simp [unfin, hbt, hp, hin]⟩
+  omega
+
+/-- The guard of a read survives the scope of the READER. `tk` is a task of the scope that owns resource
+`n` (the task of an `Item.use n`); the owner is not in the subtree of `s` (e.g. `s` is the scope the read
+happened in, below the owner). Then `dispose s` does not touch the task; if it is pending and registered
+at `b`, then `b`, if its inner scope survives, is still loading. -/
+theorem C14_use_survives_reader_scope {m : M} (hr : Reach m) {s t n : Nat} {tk : Task}
+    (ht : m.tasks[t]? = some tk) (hsc : tk.scope = m.ownerOf n) (hs : ¬ Anc m s (m.ownerOf n)) :
+    let m' := step m (.dispose s)
+    m'.tasks[t]? = some tk ∧
+    ∀ (b : Nat) (bd' : Boundary), tk.status = .pending → tk.boundary = some b →
+      m'.boundaries[b]? = some bd' → scopeAlive m' bd'.innerScope = true →
+      isLoading m' (m'.boundaries.length + 1) b = true := by
+  intro m'
+  have hout : inSubtree m s m.scopes.length tk.scope = false := by
+    cases h : inSubtree m s m.scopes.length tk.scope with
+    | false => rfl
+    | true => rw [hsc] at h; exact absurd (inSubtree_sound m s _ _ h) hs
+  have ht' : m'.tasks[t]? = some tk := C14_dispose_others hr ht (.inl hout)
+  refine ⟨ht', fun b bd' hp hbt hb hal => ?_⟩
+  exact (isLoading_iff (hr.step (.dispose s)).good hb hal).2 ⟨b, t, tk, .refl, ht', hbt, hp⟩
+
 /-! ### non-vacuity -/
 
 /-- `S1 { B0 { t0(2) } }   B1 { S4 { t1(1) }  t2(1) }`:
@@ -217,5 +287,40 @@ example : (run c14M [.dispose 4, .dispose 4]).polls = (run c14M [.dispose 4]).po
 -- hypotheses of `C14_dispose_cancels` / `C14_dispose_idempotent`
 example : inSubtree c14M 1 c14M.scopes.length 2 = true ∧ inSubtree c14M 1 c14M.scopes.length 3 = false := by decide
 example : scopeAlive (run c14M [.dispose 1]) 2 = false := by decide
+
+/-- `S1 { resource 0 }   B0 { use 0 }`: scopes 0 root, 1 = S1, 2 = inner(B0); task 0 = the fetch (scope 1),
+task 1 = the guard of the read: registered at B0, a task of scope 1 = the owner of resource 0 -/
+def c14UseOwner : M := buildItems M.init 0 none [.scope [.resource 0], .boundary [.use 0]]
+
+example : (c14UseOwner.tasks.map fun tk => (tk.scope, tk.boundary)) = [(1, none), (1, some 0)] ∧
+    c14UseOwner.resOwner = [(0, 1)] ∧ c14UseOwner.ownerOf 0 = 1 ∧
+    (c14UseOwner.boundaries.map (·.remaining)) = [1] ∧ isLoading c14UseOwner 2 0 = true := by decide
+-- `C14_use_released_with_owner`: dispose the owner S1: the guard is dropped, B0's counter (scope 0, alive)
+-- is released 1 → 0, B0 is not loading; completing the dropped tasks polls nothing
+example : let m := run c14UseOwner [.dispose 1, .complete 1, .complete 0]
+    (m.tasks.map (·.status)) = [.dropped, .dropped] ∧ (m.boundaries.map (·.remaining)) = [0] ∧
+    scopeAlive m 0 = true ∧ scopeAlive m 2 = true ∧ isLoading m 2 0 = false ∧ globalLoading m = false ∧
+    m.polls = [] := by decide
+example : Anc c14UseOwner 1 (c14UseOwner.ownerOf 0) := .refl
+
+/-- `resource 0   B0 { S2 { use 0 } }`: scopes 0 root, 1 = inner(B0), 2 = S2; task 0 = the fetch (scope 0),
+task 1 = the guard of the read made in S2: registered at B0, a task of scope 0 = the owner of resource 0 -/
+def c14UseReader : M := buildItems M.init 0 none [.resource 0, .boundary [.scope [.use 0]]]
+
+example : (c14UseReader.tasks.map fun tk => (tk.scope, tk.boundary)) = [(0, none), (0, some 0)] ∧
+    (c14UseReader.scopes.map (·.parent)) = [none, some 0, some 1] ∧ c14UseReader.ownerOf 0 = 0 ∧
+    (c14UseReader.boundaries.map (·.remaining)) = [1] := by decide
+-- `C14_use_survives_reader_scope`: dispose the reader's scope S2: the guard stays pending, B0 is loading
+example : let m := run c14UseReader [.dispose 2]
+    (m.tasks.map (·.status)) = [.pending, .pending] ∧ (m.scopes.map (·.alive)) = [true, true, false] ∧
+    (m.boundaries.map (·.remaining)) = [1] ∧ isLoading m 2 0 = true := by decide
+-- … until the guard is released: B0 is not loading any more
+example : let m := run c14UseReader [.dispose 2, .complete 1]
+    (m.tasks.map (·.status)) = [.pending, .done] ∧ (m.boundaries.map (·.remaining)) = [0] ∧
+    isLoading m 2 0 = false ∧ m.polls = [(1, 0)] := by decide
+example : inSubtree c14UseReader 2 c14UseReader.scopes.length (c14UseReader.ownerOf 0) = false := by decide
+-- a read of a resource that no item created: the owner is the root scope
+example : (buildItems M.init 0 none [.scope [.boundary [.use 7]]]).ownerOf 7 = 0 ∧
+    ((buildItems M.init 0 none [.scope [.boundary [.use 7]]]).tasks.map (·.scope)) = [0] := by decide
 
 end SycVerif.Async
